@@ -72,11 +72,13 @@ include $(wildcard $(V)/harness/*/part.mk)
 
 bins: $(BINS)
 
-data: $(B)/data/.stamp
-$(B)/data/.stamp:
-	@mkdir -p $(B)/data
-	cp -r $(REPO)/data/. $(B)/data/
-	cd $(B)/data && for f in *.tar.gz; do tar xzf $$f 2>/dev/null || true; done
+# the data location headers in cfg/ point at /verif/build/data (fixed path)
+DATA := $(V)/build/data
+data: $(DATA)/.stamp
+$(DATA)/.stamp:
+	@mkdir -p $(DATA)
+	cp -r /repo/data/. $(DATA)/
+	cd $(DATA) && for f in *.tar.gz; do tar xzf $$f 2>/dev/null || true; done
 	touch $@
 
 .PHONY: bins data $(addprefix lib-,$(FLAVOURS))
